@@ -49,38 +49,39 @@ SegsLen(k) == IF k = 0 THEN {<<>>}
                       Len(x) = 1 \/ x[1].st # x[2].st}
 Texts == {Txt(segs) : segs \in UNION {SegsLen(k) : k \in 0..MaxSegs}}
 
+\* (the case sets take a dummy parameter so that TLC does not evaluate all of them at startup)
 Case(op) == [op |-> op, t |-> NilText, ts |-> <<>>, ix |-> <<>>, w |-> 0, gs |-> <<>>, r |-> 0, s |-> <<>>]
 
-CasesT       == {[Case("t") EXCEPT !.s = s, !.gs = gs] : s \in Strings \cup {<<>>}, gs \in StylingSeqs}
-CasesConcat  == {[Case("concat") EXCEPT !.ts = ts] :
+CasesT(z)       == {[Case("t") EXCEPT !.s = s, !.gs = gs] : s \in Strings \cup {<<>>}, gs \in StylingSeqs}
+CasesConcat(z)  == {[Case("concat") EXCEPT !.ts = ts] :
                    ts \in {<<>>} \cup {<<a>> : a \in Texts} \cup {<<a, b>> : a \in Texts, b \in Texts}}
-CasesConcat3 == {[Case("concat") EXCEPT !.ts = <<a, b, d>>] : a \in Texts, b \in Texts, d \in Texts}
+CasesConcat3(z) == {[Case("concat") EXCEPT !.ts = <<a, b, d>>] : a \in Texts, b \in Texts, d \in Texts}
 RECURSIVE IxLen(_, _)
 IxLen(n, hi) == IF n = 0 THEN {<<>>} ELSE {<<i>> \o s : i \in (-1)..hi, s \in IxLen(n - 1, hi)}
-CasesPartition == {[Case("partition") EXCEPT !.t = t, !.ix = ix] :
+CasesPartition(z) == {[Case("partition") EXCEPT !.t = t, !.ix = ix] :
                      t \in Texts, ix \in UNION {IxLen(n, MaxSegs * MaxChars * 3 + 1) : n \in 0..MaxIx}}
 \* indices further than 1 beyond the text's own length add nothing
 NearIx(cc) == \A i \in 1..Len(cc.ix) : cc.ix[i] <= SumB(Plain(cc.t)) + 1
-CasesSplit   == {[Case("split") EXCEPT !.t = t, !.r = r] : t \in Texts, r \in {10, 97}}
-CasesTrim    == {[Case("trim") EXCEPT !.t = t, !.w = w] : t \in Texts, w \in (-1)..MaxW}
-CasesStyle   == {[Case("style") EXCEPT !.t = t, !.gs = gs] : t \in Texts, gs \in StylingSeqs}
-CasesStyleSeg == {[Case("styleseg") EXCEPT !.t = [nil |-> FALSE, segs |-> <<Seg(st, cs)>>], !.gs = gs] :
+CasesSplit(z)   == {[Case("split") EXCEPT !.t = t, !.r = r] : t \in Texts, r \in {10, 97}}
+CasesTrim(z)    == {[Case("trim") EXCEPT !.t = t, !.w = w] : t \in Texts, w \in (-1)..MaxW}
+CasesStyle(z)   == {[Case("style") EXCEPT !.t = t, !.gs = gs] : t \in Texts, gs \in StylingSeqs}
+CasesStyleSeg(z) == {[Case("styleseg") EXCEPT !.t = [nil |-> FALSE, segs |-> <<Seg(st, cs)>>], !.gs = gs] :
                      st \in Styles, cs \in Strings \cup {<<>>}, gs \in StylingSeqs}
 \* TextBuilder scripts: ts[i] is written at step i; ix[i] = 1 means Reset() before that write
 RECURSIVE Scripts(_)
 Scripts(n) == IF n = 0 THEN {[ts |-> <<>>, ix |-> <<>>]}
               ELSE {[ts |-> <<t>> \o s.ts, ix |-> <<z>> \o s.ix] : t \in Texts, z \in {0, 1}, s \in Scripts(n - 1)}
-CasesTB      == {[Case("tb") EXCEPT !.ts = s.ts, !.ix = s.ix] : s \in UNION {Scripts(n) : n \in 0..MaxScript}}
+CasesTB(z)      == {[Case("tb") EXCEPT !.ts = s.ts, !.ix = s.ix] : s \in UNION {Scripts(n) : n \in 0..MaxScript}}
 
-InitT         == c \in CasesT
-InitConcat    == c \in CasesConcat
-InitConcat3   == c \in CasesConcat3
-InitPartition == c \in {cc \in CasesPartition : NearIx(cc)}
-InitSplit     == c \in CasesSplit
-InitTrim      == c \in CasesTrim
-InitStyle     == c \in CasesStyle
-InitStyleSeg  == c \in CasesStyleSeg
-InitTB        == c \in CasesTB
+InitT         == c \in CasesT(0)
+InitConcat    == c \in CasesConcat(0)
+InitConcat3   == c \in CasesConcat3(0)
+InitPartition == c \in {cc \in CasesPartition(0) : NearIx(cc)}
+InitSplit     == c \in CasesSplit(0)
+InitTrim      == c \in CasesTrim(0)
+InitStyle     == c \in CasesStyle(0)
+InitStyleSeg  == c \in CasesStyleSeg(0)
+InitTB        == c \in CasesTB(0)
 Next == UNCHANGED c
 
 Unspec(cc) == CASE cc.op = "partition" -> PartitionUnspecified(cc.t, cc.ix)
